@@ -238,7 +238,52 @@ func rulesC13(c *Ctx) {
 		for _, call := range p.callsIn(fn, "objects.Queue.AddApplication") {
 			st := p.StateAt(fn, call)
 			ok := p.Holds(st, p.ResultNilAtom(true, nil, "placement.AppPlacementManager.PlaceApplication"))
+			if !ok {
+				// the error variable may have been reused since: the placement call is followed at once by
+				// `if err != nil { return ... }` and has executed on this path
+				if pl := p.DoneCall(st, nil, "placement.AppPlacementManager.PlaceApplication"); pl != nil {
+					ok = p.errorReturnedAtOnce(pl)
+				}
+			}
 			c.Check("C13.f", "application reaches a queue only after placement succeeded", call, ok, "queue.AddApplication without PlaceApplication(app) == nil")
 		}
 	}
+}
+
+// errorReturnedAtOnce: the call is the right-hand side of an assignment (or an if-init) whose error result is
+// tested non-nil by the very next statement, which returns.
+func (p *Prog) errorReturnedAtOnce(call *ast.CallExpr) bool {
+	as, ok := p.Parent(call).(*ast.AssignStmt)
+	if !ok || len(as.Lhs) == 0 {
+		return false
+	}
+	errID, ok := as.Lhs[len(as.Lhs)-1].(*ast.Ident)
+	if !ok {
+		return false
+	}
+	returnsOnErr := func(ifs *ast.IfStmt) bool {
+		be, isB := unparen(ifs.Cond).(*ast.BinaryExpr)
+		if !isB || be.Op.String() != "!=" || !p.isNilExpr(be.Y) {
+			return false
+		}
+		id, isID := unparen(be.X).(*ast.Ident)
+		if !isID || p.ObjOf(id) != p.ObjOf(errID) || len(ifs.Body.List) == 0 {
+			return false
+		}
+		_, isRet := ifs.Body.List[len(ifs.Body.List)-1].(*ast.ReturnStmt)
+		return isRet
+	}
+	switch par := p.Parent(as).(type) {
+	case *ast.IfStmt:
+		return par.Init == ast.Stmt(as) && returnsOnErr(par)
+	case *ast.BlockStmt:
+		for i, st := range par.List {
+			if st == ast.Stmt(as) && i+1 < len(par.List) {
+				if ifs, isIf := par.List[i+1].(*ast.IfStmt); isIf {
+					return returnsOnErr(ifs)
+				}
+			}
+		}
+	}
+	return false
 }
